@@ -84,7 +84,7 @@ var _ RawRegister32 = ParseTXTDMAProtectedRangeRegister(0)
 // ReadTXTDMAProtectedRangeRegister reads the raw DMA protected range register from TXT config
 func ReadTXTDMAProtectedRangeRegister(data TXTConfigSpace) (TXTDMAProtectedRange, error) {
 	var u32 uint32
-	buf := bytes.NewReader(data[TXTDMAProtectedRangeRegisterOffset:])
+	buf := bytes.NewReader(data.from(TXTDMAProtectedRangeRegisterOffset))
 	err := binary.Read(buf, binary.LittleEndian, &u32)
 	if err != nil {
 		return 0, err
